@@ -5,6 +5,7 @@ package __PKG__
 import (
 	"errors"
 	"fmt"
+	"time"
 
 	"github.com/gontainer/gontainer-helpers/v3/container"
 	"probe.test/obj"
@@ -78,6 +79,14 @@ func show__SUFFIX__(args []any) string {
 func FnInt(args ...any) int {
 	obj.Count("fn:" + PkgID__SUFFIX__ + ".FnInt")
 	return 40 + len(args)
+}
+
+// Str is a named string type; FnT has typed parameters: the arguments written in a configuration are untyped constants that
+// the generated code has to convert (5 -> time.Duration / int64, 2 -> float64, "x" -> Str).
+type Str string
+
+func FnT(d time.Duration, n int64, f float64, s Str, rest ...uint) string {
+	return fmt.Sprintf("%s|%d|%g|%s|%v", d, n, f, s, rest)
 }
 
 func FnE(args ...any) (any, error) {
